@@ -269,6 +269,55 @@ theorem now_follows_clock (now : Int) (ref : Ref) (o : Options) (hs : o.start = 
   rw [calc_ast, backOff_of_lt hlt]
   unfold resolved; rw [hs]; rfl
 
+/-! ### Along the chain manifest → Location / PatchLocation → next document -/
+
+/-- the option vector a manifest hands on is itself an accepted input at every later clock, so
+every theorem above holds for the followed document too -/
+theorem handon_accepted (now₁ now₂ : Int) (ref : Ref) (o : Options) (h : Accepted now₁ o)
+    (hle : now₁ ≤ now₂) : Accepted now₂ (handOn (T now₁ ref o) o) := by
+  obtain ⟨h1, _, _, _⟩ := calc_core ref h.clock h.start_le_now
+  refine ⟨Int.le_trans h.clock hle, ?_⟩
+  intro t off ht
+  simp only [handOn, Start.explicit.injEq] at ht
+  omega
+
+/-- **the followed document describes the same stream**: same availabilityStartTime (whatever
+roll-over of a symbolic start lies between the two clocks), the same minimumUpdatePeriod – present,
+defaulted or disabled – and a publishTime that has not gone back -/
+theorem handon_coherent (now₁ now₂ : Int) (ref : Ref) (o : Options) (h : Accepted now₁ o)
+    (hle : now₁ ≤ now₂) :
+    (followed now₁ now₂ ref o).availabilityStartTime = (T now₁ ref o).availabilityStartTime ∧
+    (followed now₁ now₂ ref o).minimumUpdatePeriod = (T now₁ ref o).minimumUpdatePeriod ∧
+    (T now₁ ref o).publishTime ≤ (followed now₁ now₂ ref o).publishTime := by
+  obtain ⟨_, a2, a3, a4⟩ := calc_core ref h.clock h.start_le_now
+  have hres : resolved now₂ (handOn (T now₁ ref o) o) = (T now₁ ref o).availabilityStartTime := by
+    simp only [resolved, handOn, resolveStart, if_true]
+    exact floorSec_of_whole _ a2
+  have hlt : resolved now₂ (handOn (T now₁ ref o) o) < now₂ := by rw [hres]; omega
+  have hast : (followed now₁ now₂ ref o).availabilityStartTime = (T now₁ ref o).availabilityStartTime := by
+    unfold followed; rw [calc_ast, backOff_of_lt hlt]; exact hres
+  have he : (followed now₁ now₂ ref o).elapsedTime = now₂ - (T now₁ ref o).availabilityStartTime := by
+    unfold followed; rw [calc_elapsed, backOff_of_lt hlt]; simp only [hres]
+  refine ⟨hast, rfl, ?_⟩
+  have hp₂ : (followed now₁ now₂ ref o).publishTime =
+      publish (floorSec now₂) (T now₁ ref o).availabilityStartTime
+        (now₂ - (T now₁ ref o).availabilityStartTime) (effectiveMup true ref o.mup) := by
+    have h0 : (followed now₁ now₂ ref o).publishTime =
+        publish (floorSec now₂) (followed now₁ now₂ ref o).availabilityStartTime
+          (followed now₁ now₂ ref o).elapsedTime (effectiveMup true ref o.mup) := rfl
+    rw [h0, hast, he]
+  rw [hp₂, calc_publish]
+  cases hm : effectiveMup true ref o.mup with
+  | none =>
+    simp only [publish]
+    exact floorSec_mono hle
+  | some p =>
+    have hp := effectiveMup_pos hm
+    rw [publish_some_eq a2, publish_some_eq a2]
+    have hee : (T now₁ ref o).elapsedTime ≤ now₂ - (T now₁ ref o).availabilityStartTime := by omega
+    have := quant_mono hp hee
+    omega
+
 /-! ### Non-vacuity: concrete instances inside the hypotheses -/
 
 /-- 2020-01-01T01:00:00.2Z -/
